@@ -5,6 +5,7 @@ import (
 	"net/http"
 
 	"github.com/buildbuildio/pebbles/common"
+	"github.com/buildbuildio/pebbles/gqlerrors"
 	"github.com/buildbuildio/pebbles/requests"
 	"github.com/samber/lo"
 )
@@ -151,12 +152,18 @@ func (q *MultiOpQueryer) queryBatch(inputs []*requests.Request) ([]map[string]in
 		return nil, err
 	}
 
-	// format the result as needed
+	// format the result as needed, reporting the errors of every failed request
+	var errs gqlerrors.ErrorList
 	for i, resp := range resps {
 		if len(resp.Errors) != 0 {
-			return nil, resp.Errors
+			errs = append(errs, resp.Errors...)
+			continue
 		}
 		results[toFetchIndexes[i]] = resp.Data
+	}
+
+	if len(errs) != 0 {
+		return nil, errs
 	}
 
 	return results, nil
